@@ -340,7 +340,10 @@ fn gen_len(rng: &mut Rng, c: usize, tier: &str) -> usize {
         // around 32*32: where the AVX2 block loop starts to run
         992 + rng.below(109) as usize
     } else if k < 83 && big_ok {
-        // several blocks, several thousand symbols
+        // several blocks, several thousand symbols (thorough: now and then ten blocks)
+        if tier == "thorough" && c == 32 && rng.chance(1, 12) {
+            return 6000 + rng.below(6300) as usize;
+        }
         let top = if tier == "thorough" { 5200 } else { 3300 };
         1024 + rng.below(top - 1024) as usize
     } else if k < 88 && c == 32 {
